@@ -2349,9 +2349,15 @@ def _factorize_multiple(
             if expect is None and is_duck_dask_array(by_):
                 raise ValueError("Please provide expected_groups when grouping by a dask array.")
 
+
+        def _labels_of_numpy_by(by_):
+            # same labels (and order) as factorizing the whole in-memory array would give
+            uniques = pd.unique(by_.reshape(-1))
+            idx = pd.Index(uniques[notnull(uniques)])
+            return idx.sort_values() if sort else idx
+
         found_groups = tuple(
-            pd.Index(pd.unique(by_.reshape(-1))) if expect is None else expect
-            for by_, expect in zip(by, expected_groups)
+            _labels_of_numpy_by(by_) if expect is None else expect for by_, expect in zip(by, expected_groups)
         )
         grp_shape = tuple(map(len, found_groups))
 
@@ -2364,7 +2370,9 @@ def _factorize_multiple(
                 meta=np.array((), dtype=np.int64),
                 **kwargs,
             )
-            for by_, expect_ in zip(by_chunked, expected_groups)
+            # in-memory labels without expected_groups must be coded against their global labels,
+            # not block by block
+            for by_, expect_ in zip(by_chunked, found_groups)
         ]
         # This could be avoied but we'd use `np.where`
         # instead `_ravel_factorized` instead i.e. a copy.
